@@ -629,21 +629,29 @@ def user_op(fn, e):
 
 
 class MayThrow(object):
-    def __init__(self, facts, external_may_throw=True):
+    def __init__(self, facts, external_may_throw=True, library_throws=True):
         """external_may_throw: how to treat callees without a body in the analysed units that are not declared noexcept
         (ITT hooks, r1 entry points): True = conservative for "this never throws" claims, False = only user operations,
-        `throw` and allocating `new` count (used where the rule wants evidence of user code in a window)"""
+        `throw` and allocating `new` count (used where the rule wants evidence of user code in a window).
+        library_throws=False: only operations of user-supplied types count - `throw` expressions and allocations inside the
+        library's own functions (bad_alloc while the scheduler initialises itself ...) are not "user exceptions"; with the
+        whole library loaded (thorough tier) they are reachable from almost every runtime entry point."""
         self.facts = facts
         self.memo = {}
         self.external_may_throw = external_may_throw
+        self.library_throws = library_throws
 
     def node(self, fn, e):
         """can evaluating CFG element e (one node, not its sub-expressions) raise an exception?"""
         n = fn.nodes[e]
         k = n.get('k')
         if k == 'throw':
-            return True
+            return self.library_throws
         if user_op(fn, e):
+            if not self.library_throws and k in ('binop', 'unop'):
+                # user-exceptions-only mode takes the instantiation at face value: a built-in operator does not throw (internal
+                # templates such as waitable_atomic<bool> are full of them; the user-supplied types of the drivers are classes)
+                return False
             if not n.get('tpl'):
                 return True
             # "tpl": the template parameter belongs to an internal template that was given one of the library's own types
@@ -653,7 +661,7 @@ class MayThrow(object):
                 return False
         if k == 'new':
             if not n.get('pl'):
-                return True            # allocation
+                return self.library_throws      # allocation
             return False               # placement new: the constructor call is a separate element
         if k in ('call', 'ctor'):
             d = fn.callee(e)
